@@ -14,7 +14,7 @@ PROFILE = dict(
     sizes=[2, 3, 4, 5, 6, 8],
     lengths=[10, 14, 20, 30],
     interleave=0.35,
-    weights=dict(faulted=0.4, run=3, gwf_cancel=0.5, pool_restart=0.2, start=4, finish=4, sched_cancel=0.6, purge=0.5, acct_flush=0.3, modify_source=0.5,
+    weights=dict(faulted=0.8, run=3, gwf_cancel=0.5, pool_restart=0.2, start=4, finish=4, sched_cancel=0.6, purge=0.5, acct_flush=0.3, modify_source=0.5,
                  delete_output=0.5, status=0.2, advance=0.3),
     p_job_ok=0.55, p_hashing=0.2, p_huge=0.01,
 )
